@@ -772,7 +772,7 @@ func popGen(maxN int, big bool) func(r *Rng) []*corev1.Pod {
 		}
 		var ps []*corev1.Pod
 		exrc := []string{"alpha", "exrc"}
-		if n < 100 && r.Bool() {
+		if r.Bool() {
 			return genPopulation(r, n, exrc)
 		}
 		for j := 0; j < n; j++ {
